@@ -373,7 +373,66 @@ def normalize(j):
         for k_, v_ in r2.items():
             r.setdefault(k_, []).extend(v_)
         j["inlined"] = r
+    fold_constant_switches(j, set(x for v_ in r.values() for x in v_))
     return r
+
+
+def fold_constant_switches(j, fn_keys):
+    """After a helper with a constant mode argument (`block_pending(.., writers_only = true)`) was inlined, the tests of that
+    argument have only one live edge.  A switch whose operand is - through single-definition copies - a constant is replaced by
+    a jump, so that the dead arm's conditions are not taken for conditions of the code behind it.  Only functions that received
+    inlined code are touched."""
+    for k in fn_keys:
+        f = j["fns"].get(k)
+        if not f or f.get("stub"):
+            continue
+        body = f["body"]
+        ndefs = defaultdict(int)
+        cdef = {}
+        borrowed = set()
+        for blk in body["blocks"]:
+            for st in blk["stmts"]:
+                if st.get("k") in ("=", "setdiscr") and "lhs" in st:
+                    l = st["lhs"]["l"]
+                    ndefs[l] += 1
+                    if st["k"] == "=" and not st["lhs"]["p"]:
+                        cdef[l] = st["rv"]
+                    if st["k"] == "=" and st["rv"].get("k") in ("ref", "rawptr") and st["rv"].get("mut"):
+                        borrowed.add(st["rv"]["place"]["l"])
+            t = blk["term"]
+            if t.get("k") == "call" and "dest" in t:
+                ndefs[t["dest"]["l"]] += 1
+        nargs = body.get("arg_count", 0)
+
+        def const_of(l, depth=0):
+            if depth > 4 or l <= nargs or ndefs.get(l) != 1 or l in borrowed or l not in cdef:
+                return None
+            rv = cdef[l]
+            if rv.get("k") != "use":
+                return None
+            op = rv["op"]
+            if "k" in op and isinstance(op["k"], dict) and "int" in op["k"]:
+                return op["k"]["int"]
+            pl = op.get("c") or op.get("m")
+            if pl is not None and not pl["p"]:
+                return const_of(pl["l"], depth + 1)
+            return None
+        for blk in body["blocks"]:
+            t = blk["term"]
+            if t.get("k") != "switch":
+                continue
+            op = t["op"]
+            pl = op.get("c") or op.get("m")
+            if pl is None or pl["p"]:
+                continue
+            v = const_of(pl["l"])
+            if v is None:
+                continue
+            tgt = None
+            for (val, tb) in t["targets"]:
+                if val == v:
+                    tgt = tb
+            blk["term"] = {"k": "goto", "target": tgt if tgt is not None else t["otherwise"], "ln": t.get("ln")}
 
 
 def _walk(x, f):
@@ -404,7 +463,7 @@ def _private_to_module(key, f):
     mod = m.group(1)
     if not key.startswith(mod + "::"):
         return False
-    rest = key[len(mod) + 2:].split("::")
+    rest = [x for x in re.sub(r"<[^<>]*(?:<[^<>]*>[^<>]*)*>", "", key[len(mod) + 2:]).split("::") if x]
     return len(rest) <= 2
 
 
@@ -922,7 +981,8 @@ def inline_helpers(j, log=None):
                 continue
             name = g.split("::")[-1]
             forced = g in FORCE_INLINE
-            if not forced and not _private_to_module(g, f):
+            # (a helper that does not exist in the reference tree cannot be an anchor: any crate-internal visibility will do)
+            if not forced and not _private_to_module(g, f) and not (ref and g not in ref and str(f.get("vis", "")).startswith("Restricted")):
                 continue
             # tiny in the reference tree as well (or new): a function that merely *became* small keeps its identity, so that a
             # rule anchored on it judges its (possibly broken) body instead of an empty stub
@@ -936,6 +996,8 @@ def inline_helpers(j, log=None):
                 continue            # several call sites + a reference function vanished from the same impl: possibly a rename the
                 #                     signature test could not resolve; leave it for the rules to identify structurally
             sites = calls.get(g, [])
+            if os.environ.get("VERIF_DEBUG_INLINE") and os.environ["VERIF_DEBUG_INLINE"] in g:
+                print("INLINE?", g, "sites", sites, "other", other.get(g), "blocks", len(f["body"]["blocks"]), file=__import__("sys").stderr)
             if not sites or len(sites) > MAX_SITES or other.get(g):
                 continue
             gb = f["body"]
